@@ -1786,6 +1786,19 @@ class Interp:
         B = self
         def A():
             return [B.ev(a) for a in e.args]
+        if s.startswith('Eigen::Matrix<>::') or s.startswith('Eigen::Array<>::'):
+            what = s.split('::')[-1]
+            ty = Type(s.split('<>')[0], f.targs, False, False, 0)
+            m = self.zero_of_type(ty)
+            if what == 'Zero':
+                return m
+            if what == 'Identity':
+                return self.mat_method(m, 'setIdentity', [])
+            if what == 'Constant':
+                return self.mat_method(m, 'setConstant', A())
+            if what == 'Ones':
+                return self.mat_method(m, 'setConstant', [1.0 if self.mode == 'float' else 1])
+            raise Unsupported(s)
         if s.startswith('std::numeric_limits'):
             what = s.split('::')[-1]
             if what == 'epsilon':
